@@ -194,21 +194,23 @@ def _(k):
 def _(k):
     me, old_me = (lambda s: s.a.self), (lambda s: s.old.a.self)
     k.requires("flag_truthful", lambda s: es_inv(s, s.a.self))
+    k.fresh_result = True
     sort_post(k, me, old_me)
     sort_frame(k, me)
     k.ensures("flag_truthful", lambda s: And(eflag(me(s)).t, es_inv(s, me(s))))
-    k.ensures("fresh_iterator_at_start", lambda s: And(Not(z3.Select(s.ex.alloc_arr(s.oh.heap), s.result.t)), it_set(s.result).t == me(s).t,
+    k.ensures("fresh_iterator_at_start", lambda s: And(Not(s.ex.is_alloc(s.oh.heap, s.result.t)), it_set(s.result).t == me(s).t,
                                                        it_index(s.result).t == 0, it_size(s.result).t == elist(me(s)).len, it_wf(s, s.result)))
     k.raises("RP2ValueError")
     for f in ("EntrySetIterator.__entry_set", "EntrySetIterator.__entry_set_size", "EntrySetIterator.__index"):
-        k.modifies(f, refs=lambda s: [], fresh_only=True)
+        k.modifies(f, refs=lambda s: [s.result])
 
 
 @contract(AES + ".duplicate", props=["C10"])
 def _(k):
     me, old_me = (lambda s: s.result), (lambda s: s.old.a.self)
     k.requires("flag_truthful", lambda s: es_inv(s, s.a.self))
-    k.ensures("fresh_view", lambda s: And(Not(z3.Select(s.ex.alloc_arr(s.oh.heap), s.result.t)), V.cls_of(s.result.t) == V.cls_of(s.a.self.t)))
+    k.fresh_result = True
+    k.ensures("fresh_view", lambda s: And(Not(s.ex.is_alloc(s.oh.heap, s.result.t)), V.cls_of(s.result.t) == V.cls_of(s.a.self.t)))
     k.ensures("shares_the_entry_list", lambda s: elist(s.result).t == elist(s.old.a.self).t)          # same objects => same figures (C10 ii)
     k.ensures("window_is_the_requested_one", lambda s: And(efrom(s.result) == s.a.from_date, eto(s.result) == s.a.to_date))
     k.ensures("same_identity_fields", lambda s: And(*[s.result.f(f) == s.old.a.self.f(f) for f in
@@ -228,7 +230,7 @@ def _(k):
     for f in ["AbstractEntrySet.__configuration", "AbstractEntrySet.__entry_set_type", "AbstractEntrySet.__asset", "AbstractEntrySet._from_date",
               "AbstractEntrySet._to_date", "AbstractEntrySet._entry_list", "AbstractEntrySet._entry_set", "AbstractEntrySet._entry_to_parent",
               "AbstractEntrySet.__is_sorted"] + GLS_SORT_FIELDS:
-        k.modifies(f, refs=lambda s: [], fresh_only=True)
+        k.modifies(f, refs=lambda s: [s.result])
 
 
 inline(AES + "._check_sort", AES + "._force_sort", ESI + ".__init__", AES + ".count", AES + ".from_date", AES + ".to_date")
@@ -263,7 +265,7 @@ def _(k):
     k.ensures("unfiltered_windows_untouched", lambda s: And(*[And(efrom(arg(s, w)) == efrom(s.old.sv(arg(s, w).v)), eto(arg(s, w)) == eto(s.old.sv(arg(s, w).v))) for w, _ in ID_SETS]))
     k.ensures("filtered_sets_are_windowed_views", lambda s: And(*[And(elist(id_fil(s.a.self, w)).t == elist(s.old.sv(arg(s, w).v)).t,
                                                                      efrom(id_fil(s.a.self, w)) == s.a.from_date, eto(id_fil(s.a.self, w)) == s.a.to_date,
-                                                                     Not(z3.Select(s.ex.alloc_arr(s.oh.heap), id_fil(s.a.self, w).t))) for w, _ in ID_SETS]))
+                                                                     Not(s.ex.is_alloc(s.oh.heap, id_fil(s.a.self, w).t))) for w, _ in ID_SETS]))
     k.ensures("window_stored", lambda s: And(s.a.self.f("InputData.__from_date") == s.a.from_date, s.a.self.f("InputData.__to_date") == s.a.to_date))
     k.ensures("all_chronological", lambda s: And(*[sorted_inst(s, arg(s, w)) for w, _ in ID_SETS]))
     k.ensures("content_kept_if_sorted", lambda s: And(*[implies(sorted_inst(s.old, s.old.sv(arg(s, w).v)), list_unchanged(s, arg(s, w), s.old.sv(arg(s, w).v))) for w, _ in ID_SETS]))
